@@ -169,8 +169,14 @@ def run_code(task, out):
     if wit is not None:
         op = {str(code.qubit_coordinates[q]): 'XYZ'[a] for q, a in wit}
         rect = 'rect' if len(set(size)) > 1 else 'cubic'
+        tag = 'd-overstated'
+        if cls == 'HollowPlanar3DCode' and \
+                size[0] > 2 * (size[1] + size[2]) - 4:
+            # the membrane wrapped around the hole (2(L_y+L_z)-4 qubits) is
+            # lighter than the string along x that the class lists
+            tag += '/x-longer-than-hole-perimeter'
         out.violation(
-            f'{cls}/{rect}/d-overstated',
+            f'{cls}/{rect}/{tag}',
             f'code.d={d} but the weight-{len(wit)} operator {op} commutes '
             f'with all stabilizers and acts non-trivially on the logical '
             f'qubits', dict(desc, d=d, lighter_logical=op))
@@ -218,6 +224,38 @@ def plan(tier, seed):
             tasks.append({'cls': cls, 'size': list(s),
                           'budget': BUDGET[tier],
                           'cost': ne ** 2 * min(s) + 200})
+    # needle / slab shapes: one long direction, small cross-section
+    needles = [('HollowPlanar3DCode', (9, 3, 3)),
+               ('HollowPlanar3DCode', (9, 2, 2)),
+               ('HollowPlanar3DCode', (3, 9, 3)),
+               ('Planar3DCode', (7, 2, 2)), ('Planar3DCode', (2, 2, 7)),
+               ('RotatedPlanar3DCode', (7, 2, 2)),
+               ('RhombicPlanarCode', (2, 2, 7)),
+               ('HollowRhombicCode', (2, 2, 7)),
+               ('Toric3DCode', (7, 2, 2)), ('XCubeCode', (6, 2, 2)),
+               ('Planar2DCode', (9, 2)), ('RotatedPlanar2DCode', (2, 11))]
+    if tier == 'thorough':
+        needles += [('HollowPlanar3DCode', (10, 3, 3)),
+                    ('HollowPlanar3DCode', (9, 3, 4)),
+                    ('HollowPlanar3DCode', (9, 4, 3)),
+                    ('HollowPlanar3DCode', (3, 3, 9)),
+                    ('HollowRhombicCode', (9, 3, 3)),
+                    ('HollowRhombicCode', (3, 9, 3)),
+                    ('RotatedPlanar3DCode', (9, 3, 3)),
+                    ('RotatedPlanar3DCode', (2, 7, 2)),
+                    ('RotatedPlanar3DCode', (2, 2, 7)),
+                    ('Planar3DCode', (2, 7, 2)), ('Planar3DCode', (9, 3, 3)),
+                    ('RhombicPlanarCode', (7, 2, 2)),
+                    ('RhombicPlanarCode', (2, 7, 2)),
+                    ('RotatedToric3DCode', (2, 8, 2)),
+                    ('RotatedToric3DCode', (8, 2, 3)),
+                    ('Toric3DCode', (2, 2, 8)), ('XCubeCode', (2, 7, 2))]
+    have = {(t['cls'], tuple(t['size'])) for t in tasks}
+    for cls, s in needles:
+        if (cls, s) not in have:
+            tasks.append({'cls': cls, 'size': list(s),
+                          'budget': max(BUDGET[tier], 8_000_000),
+                          'cost': 3e6})
     if tier == 'thorough':
         for cls, s in (('Toric2DCode', (8, 8)), ('Planar2DCode', (8, 7)),
                        ('RotatedPlanar2DCode', (9, 9)),
@@ -243,6 +281,10 @@ def finalize(run, tier, seed):
 
 
 def classify(v):
+    m = v['mechanism']
+    if m.startswith('HollowPlanar3DCode/') and \
+            m.endswith('/d-overstated/x-longer-than-hole-perimeter'):
+        return 'C17:HollowPlanar3DCode/x-longer-than-hole-perimeter'
     return None
 
 
